@@ -156,8 +156,11 @@ def times_check(k, out, T):
     except Exception as e:  # noqa
         return [f"Solution.times raised {type(e).__name__}: {e}"]
     ft = [fr["time"] for fr in out["frames"]]
-    if len(times) != len(ft) or any(abs(a - b) > 1e-12 * max(1, abs(b)) for a, b in zip(times, ft)):
-        return [f"Solution.times {np.round(times, 6).tolist()[:6]}... differ from the frame times {np.round(ft, 6).tolist()[:6]}..."]
+    scale_ = max([abs(b) for b in ft] + [1e-300])
+    if len(times) != len(ft):
+        return [f"Solution.times has {len(times)} entries for {len(ft)} recorded frames (frame times {[float(x) for x in ft][-3:]}, times {[float(x) for x in times][-3:]})"]
+    if any(abs(a - b) > 1e-12 * scale_ for a, b in zip(times, ft)):
+        return [f"Solution.times {[float(x) for x in times][:6]}... differ from the frame times {[float(x) for x in ft][:6]}..."]
     return []
 
 
@@ -179,6 +182,18 @@ def search(seed=0, max_n=7, what=("frames", "times", "records")):
                     probs += times_check(k, out, T)
                     for p in probs:
                         bad.append(dict(k=k, N=N, n_last=n_last, dts=dts, probes=probes, problem=p))
+    # other time scales, and a last partial interval that is tiny compared with the elapsed time (a long quiet phase followed by a short final step, a step
+    # cut down by retries): the final frame is still a frame of its own, with its own time
+    if "times" in what:
+        for dts, end in (([1e-9], 4.5e-9), ([1e-9], 5.5e-9), ([2e3], 9e3), ([50.0, 50.0, 1e-4], 100.00005), ([10.0, 10.0, 10.0, 10.0, 1e-5], 40.000005), ([0.3, 0.3, 1e-9], 0.6000000005)):
+            for k in (1, 2, 3, 4):
+                out = drive(k, dts, end, n_probes=0)
+                n += 1
+                if out["error"]:
+                    bad.append(dict(k=k, dts=dts, end=end, problem="run raised " + out["error"]))
+                    continue
+                for p in times_check(k, out, None):
+                    bad.append(dict(k=k, dts=dts, solve_time=end, problem=p))
     return bad, n
 
 
